@@ -154,6 +154,19 @@ func applyDesc(in *inst.Instance, rc *ref.Common, d descChange) {
 	case "gate":
 		in.Common.GateIds[d.I] = d.Arg
 		rc.GateIDs[d.I] = d.Arg
+	case "fricfg":
+		// one copy of the FRI configuration changed on its own: d.Arg = "<copy>.<field>", d.I = new value
+		v := uint64(d.I)
+		cfg, rcfg := &in.Common.FriParams.Config, &rc.FriParamsConfig
+		if strings.HasPrefix(d.Arg, "config.") {
+			cfg, rcfg = &in.Common.Config.FriConfig, &rc.FriConfig
+		}
+		switch d.Arg[strings.Index(d.Arg, ".")+1:] {
+		case "proof_of_work_bits":
+			cfg.ProofOfWorkBits, rcfg.PowBits = v, int(v)
+		case "num_query_rounds":
+			cfg.NumQueryRounds, rcfg.NumQueryRounds = v, int(v)
+		}
 	case "swapgates":
 		in.Common.GateIds[d.I], in.Common.GateIds[d.I+1] = in.Common.GateIds[d.I+1], in.Common.GateIds[d.I]
 		rc.GateIDs[d.I], rc.GateIDs[d.I+1] = rc.GateIDs[d.I+1], rc.GateIDs[d.I]
@@ -183,6 +196,18 @@ func c01DescChanges(ctx *fw.Ctx, name string) []descChange {
 	in := getInst(name)
 	var out []descChange
 	r := ctx.Rand("desc/" + name)
+	// the two copies of the FRI configuration, each changed alone (the reference decides which
+	// changes the proof depends on: plonky2 reads fri_params.config for the grinding requirement
+	// and the proof shape, config.fri_config for the number of query indices)
+	nq := int(in.Common.FriParams.Config.NumQueryRounds)
+	for _, cp := range []string{"params", "config"} {
+		for _, b := range []int{32, 48} {
+			out = append(out, descChange{"fricfg", b, cp + ".proof_of_work_bits"})
+		}
+		for _, q := range []int{nq - 1, nq + 1} {
+			out = append(out, descChange{"fricfg", q, cp + ".num_query_rounds"})
+		}
+	}
 	for i, k := range in.Common.KIs {
 		out = append(out, descChange{"kis", i, strconv.FormatUint((k+1)%P, 10)})
 		out = append(out, descChange{"kis", i, strconv.FormatUint(randGL(r), 10)})
@@ -318,7 +343,7 @@ func init() {
 					// description changes
 					ds := c01DescChanges(ctx, name)
 					for i, d := range ds {
-						structural := d.What == "selidx" || d.What == "groupstart" || d.What == "groupend" || d.What == "swapgates"
+						structural := d.What == "selidx" || d.What == "groupstart" || d.What == "groupend" || d.What == "swapgates" || d.What == "fricfg"
 						if ctx.Quick && !(i%9 == 0 || d.What != "kis" && i%4 == 0 || structural && name == "A_testdata") {
 							continue
 						}
